@@ -4,6 +4,8 @@ C09 — dimensionality is the rank of the periodic bonding network, however pres
 import MatidModel.Dim
 import MatidProofs.Cover
 import MatidProofs.GeomProofs
+import MatidProofs.Components
+import MatidProofs.Dim2x
 
 namespace Matid.Props.C09
 open Matid.Cover Matid.Dim Matid.Geom Relation
@@ -54,6 +56,45 @@ theorem wrap_inside_cell (x : Rat) :
   have h2 := Rat.lt_floor_add_one (x + eps)
   push_cast at h2
   constructor <;> linarith
+
+/-! ### the executable counter computes the components, and the doubled cell is the covering graph -/
+
+/-- the bonding matrix the model reads off the minimum-image table is square, has a true diagonal and is symmetric -/
+theorem bond_matrix_wellformed (cl : CellList) (positions : List V3) (radii : List Rat) (thr : Rat) :
+    WF (bondMatrix cl positions radii thr) := bondMatrix_wf cl positions radii thr
+
+/-- **the labelling `components` (n rounds of minimum-label propagation, the model of DBSCAN(min_samples = 1) on the bonding
+matrix) computes the connected components**: two atoms get the same label exactly when they are connected by bonds; the label
+is the smallest atom of the component — for every square, reflexive, symmetric matrix of any size -/
+theorem components_are_connected_components (adj : List (List Bool)) (hwf : WF adj) (i j : Nat) (hi : i < adj.length) (hj : j < adj.length) :
+    ((components adj).getD i i = (components adj).getD j j ↔ Connected adj i j) ∧
+    Connected adj i ((components adj).getD i i) ∧ (∀ v, Connected adj i v → (components adj).getD i i ≤ v) :=
+  components_spec adj hwf i j hi hj
+
+open Classical in
+/-- … and the number of distinct labels (what the code takes the log₂ of) is the number of components: one smallest atom each -/
+theorem count_is_number_of_components (adj : List (List Bool)) (hwf : WF adj) :
+    countDistinct (components adj) = ((Finset.range adj.length).filter fun i => ∀ v, Connected adj i v → i ≤ v).card :=
+  count_components adj hwf
+
+/-- **`mic_2x_edges`**: in the minimum-image table of the doubled cell the copy (m, i) of atom i and the copy (m', j) of atom j
+(stored at index J) have an entry within the bonding reach σ ≤ cutoff exactly when SOME lattice image n ≡ m' − m (mod 2) of atom j
+lies within σ of atom i in the original cell: the bonding graph of the 2× supercell is the derived (covering) graph of the cell's
+voltage graph over (ℤ/2)ᵏ, to which `components_times_stabiliser` applies.  Any non-singular cell, pbc, atoms inside the cell. -/
+theorem bonded_2x_iff (cell : Cell) (pbc : Pbc) (hdet : cell.det ≠ 0) (c σ : Rat) (hc : 0 < c) (hσ0 : 0 ≤ σ) (hσc : σ ≤ c)
+    (pos2 : List V3) (cl2 : CellList) (hcl : tensorCellList pos2 (Matid.Dim2x.cell2 cell pbc) pbc (some c) = .ok cl2)
+    (s u : V3) (hs : insideCell pbc s) (hu : insideCell pbc u) (m m' : Int × Int × Int)
+    (hm : Matid.Dim2x.isCopy pbc m) (hm' : Matid.Dim2x.isCopy pbc m')
+    (J : Nat) (hJ : pos2[J]? = some (toCartesian cell (Matid.Dim2x.shiftF u m'))) :
+    (∃ e, pairEntry cl2 (toCartesian cell (Matid.Dim2x.shiftF s m)) J = some e ∧ e.dist2 ≤ σ * σ) ↔
+    (∃ n : Int × Int × Int, admissible pbc n ∧
+      (∃ t : Int × Int × Int, admissible pbc t ∧ n = (m'.1 - m.1 + 2 * t.1, m'.2.1 - m.2.1 + 2 * t.2.1, m'.2.2 - m.2.2 + 2 * t.2.2)) ∧
+      imageDist2 cell (toCartesian cell s) (toCartesian cell u) n ≤ σ * σ) :=
+  Matid.Dim2x.bonded_2x_iff cell pbc hdet c σ hc hσ0 hσc pos2 cl2 hcl s u hs hu m m' hm hm' J hJ
+
+/-- non-vacuity: a three-atom chain 0–1 and an isolated atom 2 -/
+example : components [[true, true, false], [true, true, false], [false, false, true]] = [0, 0, 2] ∧
+    countDistinct (components [[true, true, false], [true, true, false], [false, false, true]]) = 2 := by decide
 
 /-! non-vacuity: a one-atom chain (edge with voltage 1 over ℤ/2) is connected -/
 example : log2Exact 4 = some 2 ∧ log2Exact 3 = none := by decide
